@@ -1984,6 +1984,11 @@ class TypeBlocks(ContainerOperand):
         Generator of sliced blocks, given row and column key selectors.
         The result is suitable for passing to TypeBlocks constructor.
         '''
+        if row_key.__class__ is list and row_key and row_key[0].__class__ in (bool, np.bool_):
+            row_key = np.array(row_key, dtype=bool)
+        if column_key.__class__ is list and column_key and column_key[0].__class__ in (bool, np.bool_):
+            column_key = np.array(column_key, dtype=bool)
+
         row_key_null = (row_key is None or
                 (isinstance(row_key, slice) and row_key == NULL_SLICE))
 
